@@ -42,7 +42,8 @@ func init() {
 			}
 			return []fw.ChildSpec{{Name: "pp", Mode: "pp", Shards: 8, Timeout: 10 * time.Minute}}
 		},
-		Run: run,
+		Run:    run,
+		Replay: replay,
 	})
 }
 
@@ -454,4 +455,30 @@ func clip(b []byte, n int) []byte {
 		return b[:n]
 	}
 	return b
+}
+
+
+// replay re-runs the case with the recorded index and seed (cases are a pure function of both).
+func replay(c *fw.Ctx, raw json.RawMessage) {
+	var w struct {
+		Case *Case `json:"case"`
+	}
+	if err := json.Unmarshal(raw, &w); err != nil || w.Case == nil {
+		fmt.Println("replay: cannot decode case:", err)
+		return
+	}
+	hmods.Quiet(c.OutDir + "/caddyhome")
+	up, err := drive.NewUpstream("tcp", "", nil, func(uc *drive.UpConn) { uc.ReadAllRecord(); uc.Conn.Close() })
+	if err != nil {
+		fmt.Println("replay:", err)
+		return
+	}
+	defer up.Close()
+	i := w.Case.Index
+	r := fw.Rand(c.Seed, "c12", i)
+	if i%10 < 7 {
+		recvCase(c, r, i)
+	} else {
+		sendCase(c, r, i, up)
+	}
 }
